@@ -37,13 +37,37 @@ def codecDefects (m : Message) (withUnwrap : Bool) : List String :=
   -- `fmt.Errorf("… %%w", name, err)`: the printf vet check go test runs rejects it
   (if needsOneofMarshal m then ["oneof_errorf_vet"] else [])
 
+/-- the unwrap field of a map's value message (map-value unwrap), if any. -/
+def mapValueUnwrap (rq : Request) (fl : Field) : Option Field :=
+  if fl.card == .map && fl.kind == .message then
+    (match rq.findMessage fl.typeName with | some v => v.fields.find? (·.unwrap) | none => none)
+  else none
+
+/-- a message with a map whose value type carries an unwrap field gets MarshalJSON / UnmarshalJSON
+from the map-value template (`generateUnwrapMarshalJSON`). -/
+def isUnwrapContaining (rq : Request) (m : Message) : Bool := m.fields.any fun fl => (mapValueUnwrap rq fl).isSome
+
+/-- does the map-value template call protojson for this containing message? Only for message
+ELEMENTS of an unwrapped list and for the message-typed siblings it re-encodes (singular, optional
+or repeated); scalar lists, scalar siblings and ordinary maps go through encoding/json. -/
+def containingUsesProtojson (rq : Request) (m : Message) : Bool :=
+  m.fields.any fun fl =>
+    match mapValueUnwrap rq fl with
+    | some u => u.card == .repeated && u.kind == .message
+    | none => fl.card != .map && fl.kind == .message
+
 /-- is the unwrap file's protojson import used? Only message-valued unwrap needs it. -/
 def unwrapUsesProtojson (rq : Request) (f : File) : Bool :=
   f.messages.any fun m =>
     m.fields.any (fun fl => fl.unwrap && fl.kind == .message) ||
-    -- a message with a map whose value type carries an unwrap field (map-value unwrap)
-    m.fields.any (fun fl => fl.card == .map && fl.kind == .message &&
-      (match rq.findMessage fl.typeName with | some v => v.fields.any (·.unwrap) | none => false))
+    (isUnwrapContaining rq m && containingUsesProtojson rq m)
+
+/-- the map-value template assumes the value message's unwrap field is a LIST (`var items
+[]interface{}` … `&V{F: items}`): when it is a map (root-map unwrap used as a map value) the
+assignment does not type-check. -/
+def mapValueUnwrapOfMap (rq : Request) (f : File) : Bool :=
+  f.messages.any fun m => m.fields.any fun fl =>
+    match mapValueUnwrap rq fl with | some u => u.card == .map | none => false
 
 def hasUnwrapFile (rq : Request) (f : File) : Bool :=
   f.messages.any fun m => m.fields.any (·.unwrap) ||
@@ -58,6 +82,7 @@ def dupIn : List Str → Bool
 def httpDefects (rq : Request) (f : File) : List String :=
   (f.messages.flatMap (codecDefects · true)) ++
   (if hasUnwrapFile rq f && !(unwrapUsesProtojson rq f) then ["unwrap_unused_import"] else []) ++
+  (if mapValueUnwrapOfMap rq f then ["map_value_unwrap_of_map_field"] else []) ++
   -- package-level identifiers are derived from the method name alone
   (if dupIn (f.services.flatMap fun s => s.methods.map fun m => goCamelCase m.name) then ["method_name_in_two_services"] else [])
 
